@@ -34,7 +34,7 @@ package tm
 //@   requires ghost.commit_sends == 0 && ghost.rollback_sends == 0 && !ghost.commit_acked && !ghost.rollback_acked
 //@   let role := gtr.TxRole
 //@   let xid := gtr.Xid
-//@   modifies gtr.TxStatus, ghost.commit_sends, ghost.commit_acked, ghost.commit_xid, ghost.last_send_failed, ghost.ctx_done
+//@   modifies gtr.TxStatus, ghost.commit_sends, ghost.commit_acked, ghost.commit_refused, ghost.commit_xid, ghost.last_send_failed, ghost.ctx_done, ghost.rollback_refused
 //@   ensures role: role != Launcher ==> result == nil && ghost.commit_sends == 0
 //@   ensures truthful-nil: role == Launcher && result == nil ==> ghost.commit_acked
 //@   ensures never-rollback: ghost.rollback_sends == 0 && ghost.begin_sends == old(ghost.begin_sends) && ghost.other_sends == old(ghost.other_sends)
@@ -53,7 +53,7 @@ package tm
 //@   requires ghost.commit_sends == 0 && ghost.rollback_sends == 0 && !ghost.commit_acked && !ghost.rollback_acked
 //@   let role := gtr.TxRole
 //@   let xid := gtr.Xid
-//@   modifies gtr.TxStatus, ghost.rollback_sends, ghost.rollback_acked, ghost.rollback_xid, ghost.last_send_failed, ghost.ctx_done
+//@   modifies gtr.TxStatus, ghost.rollback_sends, ghost.rollback_acked, ghost.rollback_refused, ghost.rollback_xid, ghost.last_send_failed, ghost.ctx_done, ghost.commit_refused
 //@   ensures role: role != Launcher ==> result == nil && ghost.rollback_sends == 0
 //@   ensures truthful-nil: role == Launcher && result == nil ==> ghost.rollback_acked
 //@   ensures never-commit: ghost.commit_sends == 0 && ghost.begin_sends == old(ghost.begin_sends) && ghost.other_sends == old(ghost.other_sends)
@@ -91,7 +91,7 @@ package tm
 
 //@ func commitOrRollback
 //@   prop C04
-//@   modifies ghost.commit_sends, ghost.commit_acked, ghost.commit_xid, ghost.rollback_sends, ghost.rollback_acked, ghost.rollback_xid, ghost.last_send_failed, ghost.ctx_done
+//@   modifies ghost.commit_sends, ghost.commit_acked, ghost.commit_refused, ghost.commit_xid, ghost.rollback_sends, ghost.rollback_acked, ghost.rollback_refused, ghost.rollback_xid, ghost.last_send_failed, ghost.ctx_done
 //@   requires ctx != nil
 //@   let cv := ctxvalue(ctx, seataContextVariable)
 //@   requires isT(cv, *ContextVariable) && cv.(*ContextVariable) != nil
